@@ -125,6 +125,12 @@ OktaApprove(u) ==
     /\ oktaTx' = [oktaTx EXCEPT ![u] = "approved"]
     /\ proven' = {} /\ act' = Req("OktaApprove", [user |-> u])
     /\ UNCHANGED <<cookie, pushTx, chal, totpLast, now, botp, cliTok>>
+\* the person at the phone says no, or says nothing until Okta gives up: either way the push is over and nothing is proven
+OktaDecline(u, how) ==
+    /\ "okta" \in Mechs /\ oktaTx[u] = "waiting" /\ how \in {"rejected", "timeout"}
+    /\ oktaTx' = [oktaTx EXCEPT ![u] = how]
+    /\ proven' = {} /\ act' = Req("OktaDecline", [user |-> u, how |-> how])
+    /\ UNCHANGED <<cookie, pushTx, chal, totpLast, now, botp, cliTok>>
 OktaPoll(c) ==
     /\ "okta" \in Mechs /\ Actor(c) # None /\ CanUpgrade(c)
     /\ G_C05_OktaApproved(c)
@@ -225,7 +231,7 @@ Next == \/ \E s \in Slots, u \in Users : Login(s, u)
         \/ \E c \in Creds, v \in VCookies : PushStart(c, v) \/ PushPoll(c, v)
         \/ \E v \in VCookies : Approve(v)
         \/ \E c \in Creds : OktaStart(c) \/ OktaPoll(c) \/ U2FBegin(c) \/ CliShow(c)
-        \/ \E u \in Users : OktaApprove(u) \/ BotpGen(u)
+        \/ \E u \in Users : OktaApprove(u) \/ BotpGen(u) \/ \E how \in {"rejected", "timeout"} : OktaDecline(u, how)
         \/ \E c \in Creds, o \in Users, d \in {0 - 1, 0, 1} : Totp(c, o, now + d)
         \/ \E c \in Creds, o \in Users, s2 \in Slots : CliSend(c, o, s2)
         \/ Tick
